@@ -4,7 +4,8 @@ import vlib
 
 TARGETS = {"h1": "example.com:443", "h2": "EXAMPLE.com:443", "h3": "10.1.2.3:8443", "h4": "[::1]:443", "h5": "[2001:db8::1]:8443",
            "h6": "localhost:1", "h7": "a.b.c.example.org:65535", "h8": "xn--bcher-kva.example:443"}
-BAD = {"b1": "example.com", "b2": "", "b3": "[::1", "b4": "example.com:443:1", "b5": ":443"}
+BAD = {"b1": "example.com", "b2": "", "b3": "[::1", "b4": "example.com:443:1", "b5": ":443", "b6": ":", "b7": "example.com.:443",
+       "b8": ".:443", "b9": "[]:443", "b10": "a b:443", "b11": "example.com:", "b12": "%zz:443"}
 INV = ["SerialsAreHostSpecific", "CacheHoldsHandedOut", "ReuseWhenQuiet"]
 
 
@@ -51,3 +52,11 @@ def replay(hists):
                 "sample": [x for x in lines if x.get("b") == 1][:10]}
     finally:
         shutil.rmtree(d, ignore_errors=True)
+
+
+def bad_targets_run():
+    """C16: every malformed CONNECT target (and a few odd well-formed ones) must be refused or served, never panic."""
+    hists = [[{"a": "badtarget", "host": b, "n": 0}] for b in sorted(BAD)] + [[{"a": "get", "host": "h1", "n": 1}, {"a": "badtarget", "host": b, "n": 0}] for b in sorted(BAD)]
+    r = replay(hists)
+    panics = [p for p in r["problems"] if "malformed_target_panic" in p["cats"]]
+    return {"cases": len(hists), "panics": len(panics), "detail": str([p["event"] for p in panics[:3]]), "sample": r["sample"][:4]}
